@@ -30,6 +30,10 @@ func GenSched(g *vh.Gen) {
 		n := 2 + g.Intn(6)
 		g.Emit("sched", vh.I(n), vh.I(g.Intn(n-1)), vh.I(1+g.Intn(2)))
 	}
+	// long bursts (queues of tens and hundreds of events behind the held invocation)
+	for _, n := range []int{33, 64, 300, 1000} {
+		g.Emit("sched", vh.I(n), vh.I(g.Intn(n-1)), vh.I(1+g.Intn(2)))
+	}
 }
 
 // ExecSched runs one schedule case.
